@@ -5,7 +5,7 @@ import ast
 from typing import List, Optional
 
 from .. import wire
-from ..model import norm_text, AnchorMissing, FuncInfo
+from ..model import canon_src, norm_text, AnchorMissing, FuncInfo
 from ..controls import Control
 from ..mutate import in_func
 
@@ -146,10 +146,10 @@ def project_rule(ctx, p):
         stm = node.body
         asg = [s for s in stm if isinstance(s, ast.Assign)]
         ret = [s for s in stm if isinstance(s, ast.Return)]
-        ok = len(asg) == 2 and len(ret) == 1 and norm_text(asg[0].value) == proj_want
+        ok = len(asg) == 2 and len(ret) == 1 and norm_text(asg[0].value) == canon_src(proj_want)
         if ok:
             pj, res = norm_text(asg[0].targets[0]), norm_text(asg[1].targets[0])
-            ok = norm_text(asg[1].value) == f"func(obj, {pj}, *args, **kwargs)" and norm_text(ret[0].value) == f"Array1D.no_mask(values={res}, pixel_scales=grid.pixel_scale)"
+            ok = norm_text(asg[1].value) == f"func(obj, {pj}, *args, **kwargs)" and norm_text(ret[0].value) == canon_src(f"Array1D.no_mask(values={res}, pixel_scales=grid.pixel_scale)")
         ctx.ob(rule, f"{w.key}:{ty}", ok, where=w, node=node, construct="; ".join(norm_text(s)[:90] for s in stm),
                message="the function must be evaluated on the radially projected grid and its result wrapped, untouched, in an Array1D with the grid's pixel scale")
     node = by_type.get("Grid2DIrregular")
@@ -202,9 +202,13 @@ def radial_rule(ctx, p):
     if ok:
         cnd, a, b = wh[0].args
         det = norm_text(wh[0])
-        radii = norm_text(cnd.left) if isinstance(cnd, ast.Compare) else None
-        ok = isinstance(cnd, ast.Compare) and len(cnd.ops) == 1 and isinstance(cnd.ops[0], ast.Lt) and norm_text(cnd.comparators[0]) == "grid_radial_minimum" \
-            and norm_text(a) == f"grid_radial_minimum / {radii}" and norm_text(b) in ("1.0", "1")
+        # radius < minimum, in either spelling (r < m  or  m > r)
+        radii = None
+        if isinstance(cnd, ast.Compare) and len(cnd.ops) == 1:
+            lo, hi = (cnd.left, cnd.comparators[0]) if isinstance(cnd.ops[0], ast.Lt) else ((cnd.comparators[0], cnd.left) if isinstance(cnd.ops[0], ast.Gt) else (None, None))
+            if lo is not None and norm_text(hi) == "grid_radial_minimum":
+                radii = norm_text(lo)
+        ok = radii is not None and norm_text(a) == f"grid_radial_minimum / {radii}" and norm_text(b) in ("1.0", "1")
         src = [norm_text(n.value) for n in w.body_nodes() if isinstance(n, ast.Assign) and norm_text(n.targets[0]) == radii]
         ok = ok and src == ["obj.radial_grid_from(grid=grid)"]
     ctx.ob(rule, w.key + ":factor", ok, where=w, node=wh[0] if wh else w.node, construct=det,
@@ -237,15 +241,17 @@ def transform_rule(ctx, p):
     ok = len(calls) == 2
     det = []
     for c in calls:
-        br = wire.enclosing_branches(w, c)
+        br = wire.branch_conds(w, c)
         a = [norm_text(x) for x in c.args[:2]]
-        det.append((a, [(norm_text(i.test), t) for i, t in br]))
-        if br and br[0][1]:
-            ok = ok and norm_text(br[0][0].test).replace('"', "'") == "not kwargs.get('is_transformed')" and a[0] == "obj"
+        det.append((a, br))
+        if br == [("kwargs.get('is_transformed')", False)]:
+            ok = ok and a[0] == "obj"
             src = [norm_text(n.value) for n in w.body_nodes() if isinstance(n, ast.Assign) and norm_text(n.targets[0]) == a[1]]
             ok = ok and len(src) == 1 and src[0].startswith("obj.transformed_to_reference_frame_grid_from(grid")
-        else:
+        elif br == [("kwargs.get('is_transformed')", True)]:
             ok = ok and a == ["obj", "grid"]
+        else:
+            ok = False
     rets = wire.returns_of(w)
     ok = ok and len(rets) == 1 and norm_text(rets[0].value) == "result"
     ctx.ob(rule, w.key, ok, where=w, node=w.node, construct=str(det), message="the grid must be transformed to the profile frame exactly once (not again when already transformed) and the function's result returned untouched")
@@ -276,5 +282,6 @@ CONTROLS = [
     Control("projection ignores the profile centre", _P + "project_grid.py", in_func("project_grid", "centre=centre, angle=angle", "angle=angle"), "C17.project"),
     Control("in-place rescale of the caller's grid (seed C17/1 shape)", _P + "relocate_radial.py", in_func("relocate_to_radial_minimum", "            moved_grid = np.multiply(grid, grid_radial_scale[:, None])", "            moved_grid = np.asarray(grid)\n            moved_grid *= grid_radial_scale[:, None]"), "C17.radial-minimum"),
     Control("relocation uses <=", _P + "relocate_radial.py", in_func("relocate_to_radial_minimum", "grid_radii < grid_radial_minimum, grid_radial_minimum / grid_radii, 1.0", "grid_radii <= grid_radial_minimum, grid_radial_minimum / grid_radii, 1.0"), "C17.radial-minimum"),
+    Control("twin: comparison written the other way round", _P + "relocate_radial.py", in_func("relocate_to_radial_minimum", "grid_radii < grid_radial_minimum, grid_radial_minimum / grid_radii, 1.0", "grid_radial_minimum > grid_radii, grid_radial_minimum / grid_radii, 1.0"), None, twin=True),
     Control("function evaluated on the original grid", _P + "relocate_radial.py", in_func("relocate_to_radial_minimum", "return func(obj, moved_grid, *args, **kwargs)", "return func(obj, grid, *args, **kwargs)"), "C17.radial-minimum"),
 ]
